@@ -262,6 +262,14 @@ func main() {
 	{
 		// vacuity guard for the theory itself: prelude + spec theory + proved lemmas must not be contradictory
 		sc := newScript()
+		// the proved lemmas mention datatypes declared in the headers of their own scripts
+		for _, lm := range eng.lemmas {
+			if proved[lm.Name] {
+				for _, h := range lm.HeaderList {
+					sc.Header(h, h)
+				}
+			}
+		}
 		th := &Obligation{Name: "theory/consistent#1", Func: "theory", Kind: "cover.theory", script: sc, pc: "true", goal: "false", Expect: "sat",
 			GoalTxt: "prelude, spec theory and proved lemmas are not contradictory"}
 		for p := range wantProps {
